@@ -792,7 +792,7 @@ Proof.
   unfold conforms_root. destruct root as [|l|tn flds|items|]; try discriminate.
   intro H. apply andb_true_iff in H. destruct H as [Ho Hc].
   destruct (conforms_obj_inv s tn flds rt Hc) as [rt' [[[_ ->]|[Hn _]] [_ Hoc]]]; [|congruence].
-  exists tn, flds. repeat split; assumption.
+  exists tn, flds. split; [reflexivity|]. split; assumption.
 Qed.
 
 Lemma well_typed_with_inv nulls s d :
@@ -809,7 +809,7 @@ Proof.
   split; [exact Hnd|].
   destruct (root_type s (d_kind d)) as [rt|]; [|discriminate].
   apply andb_true_iff in Hroot. destruct Hroot as [Ho Hc].
-  exists rt. repeat split; [exact Ho|]. eapply check_set_sound. exact Hc.
+  exists rt. split; [reflexivity|]. split; [exact Ho|]. eapply check_set_sound. exact Hc.
 Qed.
 
 (* A well-typed operation over conforming data, on a schema whose argument defaults are valid,
